@@ -112,9 +112,10 @@ CLAIMS = {
         "note": _BASE_NOTE + " Composition lexer==reference and parser==grammar => parse==grammar is an argument, not a query. Number followed by digit or '.' is don't-care.",
     },
     "C02": {
-        "technique": "bounded symbolic execution (CrossHair/z3) of parse_block_string / string decoding / span arithmetic against spec transcriptions",
-        "text": "Block string values for every raw content up to 3 (quick) / 4 (thorough) symbolic characters decided against BlockStringValue(); token values and offsets are covered by the C01 lexer conditions (same comparison includes value/start/end).",
-        "note": _BASE_NOTE,
+        "technique": "bounded symbolic execution (CrossHair/z3): symbolic block-string contents through parse_block_string vs BlockStringValue(); solver-chosen placements of ignorable characters with span arithmetic and span re-parsing",
+        "text": "Block string values for every raw content of <= 3 (thorough 4) symbolic characters equal BlockStringValue(). Spans: 3 documents covering every node kind x 10 ignorable gap strings x placements x widths x prefixes x no_location: same tree, "
+                "span = (first token start, last token end), Document = (0, len), spanned text parses back to an equal node, loc None when disabled. Token values and offsets (escape decoding, verbatim numbers) are decided by the C01 lexer conditions, whose comparison includes value/start/end.",
+        "note": _BASE_NOTE + " Spans in documents that are not instances of the three templates are outside the claim.",
     },
     "C07": {
         "technique": "bounded symbolic execution (CrossHair/z3) of coerce_value / value_from_ast / coerce_argument_values against a spec coercion oracle",
